@@ -21,7 +21,7 @@
 //! The oracle judges the property without the Lean model: documented lengths (nonce 12 + tag 16), equal plaintext ⇒
 //! equal searchable ciphertext and different plaintext ⇒ different, config rows and version, key-entry shape, profile key
 //! size, the library's dump = what was written (read), = the case's records (write), = the recorded dump (golden).
-use crate::canon::{err_name, kind_of, tags_from_json, value_from_json, Rec, Tag};
+use crate::canon::{err_name, jvalue, kind_of, tags_from_json, value_from_json, Rec, Tag};
 use crate::rawsql::{RawDb, Val};
 use crate::rng::Rng;
 use crate::store_case::{cleanup, dump_profile, scratch_dir};
@@ -208,6 +208,23 @@ fn format_oracle(ctx: &str, method: &str, raw: &Value, plain: Option<&BTreeMap<i
 
 fn close(b: AnyBackend) {
     block_on(async move { b.close().await.ok(); drop(b); });
+}
+
+/// Open an existing file store.  The first connections of the pool race on the switch to WAL mode and may see
+/// SQLITE_BUSY ("database is locked") on a file that was just created out of band: that is set-up, not the property — retry.
+fn open_retry(uri: &str, method: &str, pass: &str) -> Result<AnyBackend, askar_storage::Error> {
+    let mut last = None;
+    for attempt in 0..20 {
+        match block_on(async { uri.open_backend(Some(method_of(method)), passkey(method, pass), None).await }) {
+            Ok(b) => return Ok(b),
+            Err(e) if matches!(e.kind(), askar_storage::ErrorKind::Backend | askar_storage::ErrorKind::Busy) && format!("{:?}", e).contains("locked") => {
+                last = Some(e);
+                std::thread::sleep(std::time::Duration::from_millis(20 * (attempt + 1)));
+            }
+            Err(e) => return Err(e),
+        }
+    }
+    Err(last.unwrap())
 }
 
 /// every profile's dump, default profile, as the library reports them
@@ -433,7 +450,7 @@ fn exec_write(case: &Value, tag: &str) -> Value {
     if let Err(e) = build_file(&path, &rows) { cleanup(&Some(path)); return json!({"out": {"err": format!("build: {}", e)}, "oracle": [{"sig": "write:file-build-failed", "detail": e}]}); }
     // the rows the spec wrote obey the documented lengths too (judged here, not by the spec)
     let uri = format!("sqlite://{}", path);
-    let backend = match block_on(async { uri.as_str().open_backend(Some(method_of(&method)), passkey(&method, &pass), None).await }) {
+    let backend = match open_retry(&uri, &method, &pass) {
         Ok(b) => b,
         Err(e) => {
             cleanup(&Some(path));
@@ -524,7 +541,7 @@ fn exec_golden(case: &Value, tag: &str) -> Value {
     // the Lean side reads the file as the pinned tree left it (before the current code touches it)
     let raw = match raw_dump(&path) { Ok(r) => r, Err(e) => { cleanup(&Some(path)); return json!({"out": {"err": format!("raw:{}", e)}, "oracle": [{"sig": "golden:raw-dump-failed"}]}) } };
     let uri = format!("sqlite://{}", path);
-    let opened = block_on(async { uri.as_str().open_backend(Some(method_of(&method)), passkey(&method, &pass), None).await });
+    let opened = open_retry(&uri, &method, &pass);
     let backend = match opened {
         Ok(b) => b,
         Err(e) => {
@@ -540,7 +557,17 @@ fn exec_golden(case: &Value, tag: &str) -> Value {
         Err(e) => { cleanup(&Some(path)); return json!({"out": {"err": format!("dump:{}", err_name(e.kind()))},
                       "oracle": [{"sig": format!("golden:current-code-cannot-read:{}:{}", err_name(e.kind()), method), "detail": format!("{:?}", e)}]}) }
     };
-    if dump != meta["profiles"] { oracle_fail(&mut fails, format!("golden:contents-differ-from-recorded:{}", method), json!(null)); }
+    // the recorded dump carries every value as plain hex; bring it to the canonical value form (long values → digest)
+    let mut recorded = meta["profiles"].clone();
+    if let Some(m) = recorded.as_object_mut() {
+        for recs in m.values_mut() {
+            for r in recs.as_array_mut().into_iter().flatten() {
+                let v = hex::decode(r["v"].as_str().unwrap_or("")).unwrap_or_default();
+                r["v"] = jvalue(&v);
+            }
+        }
+    }
+    if dump != recorded { oracle_fail(&mut fails, format!("golden:contents-differ-from-recorded:{}", method), json!(null)); }
     if lib_default != s(&meta, "default_profile") { oracle_fail(&mut fails, format!("golden:default-profile:{}", method), json!(lib_default)); }
     format_oracle("golden", &method, &raw, None, &mut fails, &mut feat);
     let mut model_input = json!({"raw": raw, "pass": pass, "method": method});
